@@ -220,13 +220,29 @@ def rule_header_bits(ctx):
                        ok and val == 0x40 and ("truth", "self.send_compressed", None, True) in mf.at(n), f"b0 |= {t}", fn.loc(n.ast))
     # PreparedMessage b0
     fn = ctx.program.func("autobahn.websocket.protocol.PreparedMessage.__init__")
-    b0s = [s for s in walk_no_defs(fn.node) if _is_assign(s, "b0")]
-    ctx.require(len(b0s) == 1 and isinstance(b0s[0].value, ast.IfExp), "PreparedMessage: b0 expression not found")
-    e = b0s[0].value
-    okb, vb = ctx.program.try_const(e.body, fn.module, fn.cls)
-    oko, vo = ctx.program.try_const(e.orelse, fn.module, fn.cls)
-    ctx.ob("PreparedMessage: single FIN frame, opcode 2 if binary else 1", okb and oko and vb == 0x82 and vo == 0x81 and norm.text(e.test) == "isBinary",
-           f"b0 = {norm.text(e)}", fn.loc(b0s[0]))
+    # evaluated (sa.core.tiny) for a text and a binary message: the first octet of the assembled frame (FIN set, opcode 1 / 2, no RSV bits)
+    from ..core.tiny import Tiny, Sym, Buf
+    ctx.analysed(fn)
+    joins = [c for c in calls_in(fn.node) if isinstance(c.func, ast.Attribute) and c.func.attr == "join" and c.args and isinstance(c.args[0], ast.List) and len(c.args[0].elts) >= 4]
+    ctx.require(len(joins) == 1, "PreparedMessage: frame assembly join not found")
+    prm = fn.params()
+    bad = []
+    try:
+        for binary in (False, True):
+            env = {"self": Sym("prepared"), prm[1]: Buf(0, 5), prm[2]: binary, prm[3]: False, prm[4]: True}
+            t = Tiny(env, default_call=lambda f_, a_, k_=None: Sym(f"<{f_}>"), opaque_globals=True, model_strings=True, model_types=True)
+            r = t.run([x for x in fn.node.body if not (isinstance(x, ast.Expr) and isinstance(x.value, ast.Constant))],
+                      stop=lambda st_: any(x is joins[0] for x in ast.walk(st_)))
+            if r[0] != "stop":
+                bad.append(f"isBinary={binary}: frame assembly not reached ({r[0]} {str(r[1])[:40]})")
+                continue
+            first = t.ev(joins[0].args[0].elts[0])
+            want = bytes([0x82 if binary else 0x81])
+            if first != want and first != ("octets", want[0]):
+                bad.append(f"isBinary={binary}: first octet is {first!r}, expected {want!r} (FIN + opcode {2 if binary else 1})")
+    except AnalysisError as e:
+        raise AnalysisError(f"[C01.2-header-bit-layout] PreparedMessage.__init__ outside the modelled subset: {e}")
+    ctx.ob("PreparedMessage: single FIN frame, opcode 2 if binary else 1 [2 cells]", not bad, "; ".join(bad), fn.loc(joins[0]))
 
 
 def _slice_loop(ctx, fn, loop, payload, step_ok_msg):
@@ -548,15 +564,7 @@ def rule_prepared(ctx):
     direct = [c2 for c2 in calls_in(fn.node) if self_call(c2, "sendData")]
     ctx.ob("sendPreparedMessage (plain link): writes the pre-framed octets once", len(direct) == 1 and norm.text(direct[0].args[0]).startswith(pm + "."),
            "direct write changed", fn.loc())
-    # the pre-framed first octet carries FIN and the opcode of the type
-    b0 = [st for st in walk_no_defs(init.node) if _is_assign(st, "b0", None)] if False else [st for st in walk_no_defs(init.node) if isinstance(st, ast.Assign) and norm.text(st.targets[0]) == "b0"]
-    if b0:
-        from .common import eval_finite
-        try:
-            arr = eval_finite(p, init, b0[0].value, {"isBinary": np.array([False, True])}, 2)
-            ctx.ob("PreparedMessage: first octet = FIN | opcode 1 (text) / 2 (binary)", [int(x) for x in arr] == [0x81, 0x82], f"first octet {[hex(int(x)) for x in arr]}", init.loc(b0[0]))
-        except AnalysisError:
-            pass
+    # (the pre-framed first octet -- FIN and the opcode of the type -- is decided cell-wise under C01.2)
 
 
 def rule_send_queue(ctx, rule_id="C01.5-send-queue-fifo"):
@@ -967,6 +975,10 @@ def rule_stream_sequences(ctx):
 
 
 def run(ctx):
+    # "identical payload bytes ... with any compression setting": each message is inflated with the PEER direction's context-takeover flag and
+    # window (cells shared with C12.8 / C16.4)
+    from .c16 import rule_message_start
+    rule_message_start(ctx, "C01.12-inflater-follows-the-peer-direction")
     rule_stream_frame_data(ctx)
     rule_stream_sequences(ctx)
     rule_length_coding(ctx)
